@@ -14,6 +14,7 @@ import FB.Rollback
 import FB.MakeDirs
 import FB.MakeRoom
 import FB.Conc
+import FB.ConcDirs
 open FB FB.Wire
 open Lean (Json)
 
@@ -227,6 +228,18 @@ def runConc (j : Lean.Json) : Except String Lean.Json := do
         | .rejectedAtAppend => if s.effectsAfterClose.contains 1 then "fenced-after-effect-after-close" else "fenced-after-effect-before-close"
         | _ => "unfinished"
       s!"{show1} inrecord={s.record.contains 1}"
+    return Json.mkObj [("schedules", .num (.fromNat scheds.length)), ("outcomes", .arr ((dedupStr outs).map .str).toArray)]
+  | "DIRS" =>
+    -- FB.ConcDirs: thread i builds the file paths[i]; every interleaving of the is_dir / mkdir / register steps
+    let paths ← (← (← j.getObjVal? "paths").getArr?).toList.mapM fun x => do pure (parsePath (← x.getStr?))
+    let p : Nat → FB.Path := fun i => paths.getD i ["unused"]
+    let steps := paths.map fun q => 2 * q.length + 1
+    let scheds := interleavings steps
+    let showL := fun (l : List FB.Path) => ",".intercalate ((l.map fun d => "/".intercalate d).toArray.qsort (· < ·)).toList
+    let outs := scheds.map fun sc =>
+      let s := FB.ConcDirs.run p (FB.ConcDirs.init p []) sc
+      let done := (List.range paths.length).all fun i => s.pc i == .registered
+      s!"created={showL s.b.created} dirs={showL s.dirs} done={done}"
     return Json.mkObj [("schedules", .num (.fromNat scheds.length)), ("outcomes", .arr ((dedupStr outs).map .str).toArray)]
   | p => throw s!"unknown protocol {p}"
 
